@@ -356,7 +356,10 @@ pub fn init_date(interp: &mut Interpreter) {
     interp
         .date_prototype
         .borrow_mut()
-        .set_property(constructor_key, JsValue::Object(constructor.clone()));
+        .define_property(
+            constructor_key,
+            crate::value::Property::with_attributes(JsValue::Object(constructor.clone()), true, false, true),
+        );
 
     // Register globally
     let date_key = PropertyKey::String(interp.intern("Date"));
